@@ -3,6 +3,7 @@ package gen
 
 import (
 	"fmt"
+	"strings"
 
 	"verif/sim"
 )
@@ -90,6 +91,9 @@ type DataSpec struct {
 	Ptr    bool // pass *Root instead of Root as Execute data
 	Nested bool
 	Tag    int
+	// Big: 0 ordinary sizes; 1: 20 names and a 700-byte title; 2: a 6000-byte title (sizes beyond the
+	// small buffers and inline capacities ordinary examples stay under)
+	Big int
 }
 
 func GenData(t *sim.Tape, tag int) DataSpec {
@@ -102,6 +106,7 @@ func GenData(t *sim.Tape, tag int) DataSpec {
 		Ptr:    t.Bool(1, 2),
 		Nested: t.Bool(1, 3),
 		Tag:    tag,
+		Big:    t.Weighted(14, 1, 1),
 	}
 }
 
@@ -116,7 +121,15 @@ func (d DataSpec) BuildRoot() *Root {
 		}
 		r.Items = append(r.Items, it)
 	}
-	for i := 0; i < d.NNames; i++ {
+	nNames := d.NNames
+	switch d.Big {
+	case 1:
+		nNames = 20
+		r.Title += strings.Repeat("t", 700)
+	case 2:
+		r.Title += strings.Repeat("T", 6000)
+	}
+	for i := 0; i < nNames; i++ {
 		r.Names = append(r.Names, fmt.Sprintf("nm%d.%d", d.Tag, i))
 	}
 	if d.Nested {
